@@ -19,7 +19,7 @@ CHECKS = {
  "C04": ("model_checking", "5 C04", G_TEXT + T_TEXT + "modes mixing positive, negative and no lookaheads, with with_offset/set_offset." + PROOF, NOTE, TECH),
  "C05": ("model_checking", "5 C05", G_TEXT + T_TEXT + "modes with two or more patterns and lookaheads: the reported token must be a member of Tokenizer!Best (maximal extent, then first pattern); a panic is an unexplained event." + PROOF, NOTE, TECH),
  "C06": ("model_checking", "5 C06", G_TEXT + T_TEXT + "random mode graphs, set_mode on iterators and scanners, new iterators; current_mode() is compared after every call.", NOTE, TECH),
- "C07": ("model_checking", "5 C07", G_TEXT + T_TEXT + "hostile configurations (nullable patterns, 1-4 byte characters, empty inputs), calls after exhaustion; WellFormed/Progress are invariants of the specification and every logged token must be one the specification allows.", NOTE, TECH),
+ "C07": ("model_checking", "5 C07", G_TEXT + T_TEXT + "hostile configurations (nullable patterns, 1-4 byte characters, empty inputs), calls after exhaustion; WellFormed/Progress are invariants of the specification and every logged token must be one the specification allows. Liveness: IterLive (next_match, one action per loop iteration) satisfies CallReturns and ScanTerminates under weak fairness (TLC, two broken variants refuted); in the code a call that does not return within 120 s is reported as a violation by the harness watchdog.", NOTE, TECH),
  "C09": ("model_checking", "5 C09", G_TEXT + T_TEXT + "WithPositions iterators, position queries for scanned offsets, resets to earlier offsets, exhaustion.", NOTE, TECH),
  "C10": ("model_checking", "5 C10", G_TEXT + T_TEXT + "with_offset/set_offset to every kind of boundary, peek_n + advance_to, set_mode.", NOTE, TECH),
  "C11": ("model_checking", "5 C11", G_TEXT + T_TEXT + "peek_n(n) at random points of random histories; token list, classification, target mode and purity (later calls) are checked, for n = 0..5 and n = usize::MAX; the peek_n loop is also modelled in layer B (IterImpl!PeekLoop) and TLC checks that it refines the user-level PeekResults (and refutes the loop as it was before repair D6).", NOTE, TECH),
